@@ -323,7 +323,8 @@ class ReadAllowlistUnit(Unit):
     )
 
     def shapes(self, tier):
-        return [('unset', 'unset'), ('unset', ''), ('unset', 'a, b*,,  c '), ('bad', 'unset'), ('bad', 'x'), ('good', 'unset'), ('nokey', 'unset')]
+        return [('unset', 'unset'), ('unset', ''), ('unset', 'a, b*,,  c '), ('bad', 'unset'), ('bad', 'x'), ('good', 'unset'), ('nokey', 'unset'),
+                ('nullkey', 'unset'), ('nullkey', 'x'), ('emptyfile', 'unset'), ('emptylist', 'unset')]
 
     def run(self, shape, dec):
         fstate, envval = shape
@@ -343,12 +344,14 @@ class ReadAllowlistUnit(Unit):
             return Obj('File')
 
         def safe_load(ex_, f):
-            return {'safe_metrics': list(yaml_names)} if fstate == 'good' else {}
+            # YAML states: a list of names; no such key; the key present but null (every entry commented out); an empty file (None); an empty list
+            return {'good': {'safe_metrics': list(yaml_names)}, 'nullkey': {'safe_metrics': None}, 'emptyfile': None, 'emptylist': {'safe_metrics': []}}.get(fstate, {})
         for g in ex.modules.values():
             g.update(os=Obj('os', env=env), open=Native(open_, 'open'), yaml=Obj('yaml', safe_load=Native(safe_load, 'safe_load')))
         r = ex.call_closure(closure(CONFIG, 'read_allowlist'), [], {})
         ex.cover('returned')
         ex.outcome = 'return'
+        ex.oblige('C16.lockdown: read_allowlist() always returns a set, never None (None would mean allow-all to the exporter)', isinstance(r, (set, SSet)))
         if fstate == 'good':
             ex.oblige('C16.config: the YAML safe_metrics list is the allow-list', isinstance(r, (set, SSet)) and (not isinstance(r, set) or len(r) == 2))
         elif envval not in ('unset', ''):
@@ -361,10 +364,27 @@ class ReadAllowlistUnit(Unit):
     def replay(self, failure):
         import os
         from openfilter.observability.config import read_allowlist
+        import tempfile
+        obs = []
         for k in ('OF_SAFE_METRICS_FILE', 'OF_SAFE_METRICS'):
             os.environ.pop(k, None)
         r = read_allowlist()
-        return {'confirmed': r != set(), 'inputs': 'no OF_SAFE_METRICS / OF_SAFE_METRICS_FILE', 'observed': repr(r), 'required': 'empty set'}
+        if r != set():
+            obs.append(f'nothing configured: {r!r}')
+        for label, text in (('key present but every entry commented out', 'safe_metrics:\n#  - a\n'), ('empty file', ''), ('empty list', 'safe_metrics: []\n')):
+            with tempfile.NamedTemporaryFile('w', suffix='.yaml', delete=False) as f:
+                f.write(text)
+            os.environ['OF_SAFE_METRICS_FILE'] = f.name
+            try:
+                r = read_allowlist()
+            except Exception as e:
+                r = f'raised {type(e).__name__}'
+            finally:
+                os.environ.pop('OF_SAFE_METRICS_FILE', None)
+                os.unlink(f.name)
+            if r != set():
+                obs.append(f'{label}: read_allowlist() == {r!r}')
+        return {'confirmed': bool(obs), 'inputs': 'no configuration / YAML file that names no metric', 'observed': obs or 'empty set every time', 'required': 'the empty set (lock-down), never None'}
 
 
 UNITS = [IsAllowedUnit(), ExportUnit(), ReadAllowlistUnit()]
